@@ -8,7 +8,7 @@ def run(tier, seed, replay=None):
     prayerday_mc(rep, "C07", ["NoPanic", "SevenEntries"], roundings="{0, 1, 2, 3}" if full else "{0, 3}",
                  fajr_offsets="{0, 90000}", neg="TRUE", props=["Finishes"])
     # vacuity: the pre-fix unwrap (D2) must be reachable as Panic in the same model
-    cfg = write_cfg("C07legacy.cfg", {"LegacyUnwrap": "TRUE", "LegacyImsaak": "FALSE", "LegacyImsaakFlag": "FALSE", "LegacyLateInt": "TRUE", "Roundings": "{0}", "FajrOffsets": "{0}", "NegOffsets": "FALSE"}, ["NoPanic"])
+    cfg = write_cfg("C07legacy.cfg", {"LegacyUnwrap": "TRUE", "LegacyImsaak": "FALSE", "LegacyImsaakFlag": "FALSE", "LegacyLateInt": "TRUE", "LegacyIntFlag": "TRUE", "Roundings": "{0}", "FajrOffsets": "{0}", "NegOffsets": "FALSE"}, ["NoPanic"])
     leg = tlc_must_fail("PrayerDay", cfg, expect="NoPanic", workers=6, heap="6g")
     rep.add_tlc(leg)
     gd = tlc_must_pass("GoodDay", "GoodDayMC.cfg", workers=6, timeout=900)   # the search loop terminates
